@@ -287,3 +287,23 @@ def gen_request_head(rng, nfields):
     out += b"\r\n"
     return {"bytes": out, "method": method, "version": 0 if version == "1.0" else 1, "fields": fields,
             "line_ends": line_ends, "expected": group_headers(fields)}
+
+
+def call_recv_prelude(method="GET", version="1.1", headers=()):
+    """Operations that bring a single-call API object (Call::without_body / Call::with_body) to Call<RecvResponse>:
+    the request is written completely, then into_receive (operation proceed)."""
+    if method in BODY_METHODS:
+        hs = list(headers) + [("content-length", "2")]
+        return ["call_with " + request_args(method, version, "http", "a.test", "/c", hs), "write_body x #4096",
+                "write_body %s #100" % hx(b"hi"), "q_is_finished", "proceed"]
+    return ["call_without " + request_args(method, version, "http", "a.test", "/c", list(headers)), "write_head #4096", "q_is_finished", "proceed"]
+
+
+# Interim responses (1xx other than an awaited 100) that a server may send before the final response: the caller gets each one from
+# try_response and calls try_response again on the same flow. None of their fields may leak into the final response's handling.
+INTERIM_HEADS = [
+    b"HTTP/1.1 103 Early Hints\r\nLink: </s.css>; rel=preload\r\n\r\n",
+    b"HTTP/1.1 102 Processing\r\n\r\n",
+    b"HTTP/1.1 103 Early Hints\r\nLocation: http://evil.test/early\r\nContent-Length: 9\r\nTransfer-Encoding: chunked\r\n\r\n",
+    b"HTTP/1.1 100 Continue\r\n\r\n",        # a 100 that is not awaited (no Expect, or a second one): handed to the caller like any interim response
+]
